@@ -245,6 +245,65 @@ def _worker(case):
         return {"tool_failure": f"{type(e).__name__}: {e}"}
 
 
+def gap_probe(limit=6.0):
+    """Outside the property's quantifier (it needs a deleted row or a foreign writer), recorded as a note only:
+    on a table whose ids have a gap ({0, 2}) the count (2) names a taken id for ever — model: gap_livelocks.
+    Returns a sentence describing what the real constructor does within `limit` seconds."""
+    root = "/dev/shm" if os.path.isdir("/dev/shm") and os.access("/dev/shm", os.W_OK) else None
+    d = tempfile.mkdtemp(prefix="c36-gap-", dir=root)
+    dbfile = os.path.join(d, "androguard.db")
+    url = "sqlite:///" + dbfile
+    pid = None
+    try:
+        for k in range(3):
+            os.waitpid(_fork(url, None, f"pre{k}", "session", d), 0)
+        con = sqlite3.connect(dbfile, timeout=30)
+        con.execute("delete from session where id = 1"); con.commit()
+        before = [r[0] for r in con.execute("select id from session order by id")]
+        con.close()
+        out = os.path.join(d, "probe.result")
+        pid = os.fork()
+        if pid == 0:
+            try:
+                os.environ.pop("ANDROGUARD_VERIF_SYNC_DIR", None)
+                try:
+                    from androguard.session import Session
+                    r = {"ok": Session(db_url=url).session_id}
+                except BaseException as e:  # noqa
+                    r = {"err": type(e).__name__}
+                with open(out + ".tmp", "w") as f:
+                    json.dump(r, f)
+                os.rename(out + ".tmp", out)
+            finally:
+                os._exit(0)
+        t0 = time.time()
+        while time.time() - t0 < limit and not os.path.exists(out):
+            time.sleep(0.01)
+        if os.path.exists(out):
+            r = json.load(open(out))
+            return f"table with an id gap {before}: Session() returned {r} (no livelock on this tree)"
+        os.kill(pid, 9)
+        con = sqlite3.connect(dbfile, timeout=30)
+        after = [r[0] for r in con.execute("select id from session order by id")]
+        con.close()
+        return (f"table with an id gap {before} (a row deleted by another writer): the real Session() did not return within {limit:.0f}s "
+                f"and was killed, rows afterwards {after} — the livelock of theorem gap_livelocks is real; outside the property "
+                "(databases written only by this code stay dense: dense_invariant)")
+    except Exception as e:  # noqa
+        return f"gap probe could not run: {type(e).__name__}: {e}"
+    finally:
+        if pid:
+            try:
+                os.kill(pid, 9)
+            except OSError:
+                pass
+            try:
+                os.waitpid(pid, 0)
+            except OSError:
+                pass
+        shutil.rmtree(d, ignore_errors=True)
+
+
 def warm_up():
     """trigger SQLAlchemy's / dataset's lazy imports once in the parent so that forked children are fast"""
     from androguard.session import Session
@@ -390,7 +449,11 @@ def run(ck: Check):
     ck.compare("session", reqs, reals, model)
     ck.cover(evaluations=len(cases), distinct=nontrivial, samples=samples, dist=dict(dist, corpus=len(corpus)))
     ck.assumptions.append("SQLite executes one INSERT / one SELECT COUNT atomically and enforces the primary key; dataset/SQLAlchemy are "
-                          "modelled, not verified; the table holds ids 0..b-1 when the sessions start (rows are never deleted)")
+                          "modelled, not verified")
+    ck.assumptions.append("the table's primary keys are dense (exactly 0..rows-1) when the sessions start: proved to be an invariant of this "
+                          "code (dense_invariant) and an explicit hypothesis of retry_ok_on_dense_table; databases also modified by other "
+                          "writers (deleted rows, foreign inserts) are outside the claim — there the loop never ends (gap_livelocks)")
+    ck.notes.append(gap_probe())
     ck.partial.append("the replay forces interleavings only at hook H1's sync point (between the count and the insert statement); "
                       "schedules finer than that — e.g. another process committing inside a non-atomic insert helper such as "
                       "dataset's insert_ignore (SELECT then INSERT) — are outside the replay; the shape pin retry_loop_unbounded "
